@@ -211,6 +211,13 @@ macro_rules! sinks {
         let vres = { let $b2 = $mk; let $v = &mut vecout; $vec };
         let mut sbuf = vec![0xC7u8; $size + 6];
         let sres = { let $b3 = $mk; let $s = &mut sbuf[..$size + 2]; $slice };
+        // a slice of exactly the announced size must do
+        let mut ebuf = vec![0xC7u8; $size + 4];
+        let eres = { let $b3 = $mk; let $s = &mut ebuf[..$size]; $slice };
+        let exact: Value = match &eres {
+            Ok(n) => json!(["ok", *n as i64, b2i(*n == out.len() && ebuf[..*n] == out[..]), b2i(ebuf[$size..].iter().all(|x| *x == 0xC7))]),
+            Err(e) => json!([serr(e)["k"], serr(e)["actual"], -1, b2i(ebuf[$size..].iter().all(|x| *x == 0xC7))]),
+        };
         // slices that are too short: every "interesting" length (0, 1, inside each part, one byte short)
         let mut shorts: Vec<Value> = vec![];
         let mut lens: Vec<usize> = vec![0, 1, 13, 14, 15, 17, 18, 19, 21, 33, 34, 35, 41, 53, 54, 55, $size / 2, $size.saturating_sub(9), $size.saturating_sub(2), $size.saturating_sub(1)];
@@ -252,7 +259,7 @@ macro_rules! sinks {
                 });
             }
         }
-        (out, wres, vecout, vres, sbuf, sres, shorts, faults)
+        (out, wres, vecout, vres, sbuf, sres, shorts, faults, exact)
     }};
 }
 
@@ -268,7 +275,7 @@ pub fn run_case(id: &str, cfg: &Value) -> Value {
             Final::Raw(b, _) => b.size(plen),
             Final::Arp(b) => b.size(),
         };
-        let (out, wres, vecout, vres, sbuf, sres, shorts, faults) = match build(cfg) {
+        let (out, wres, vecout, vres, sbuf, sres, shorts, faults, exact) = match build(cfg) {
             Final::Udp(_) => sinks!(match build(cfg) { Final::Udp(b) => b, _ => unreachable!() }, payload, size, |b, w| b.write(w, &payload), |b, v| b.write_to_vec(v, &payload), |b, s| b.write_to_slice(s, &payload)),
             Final::Tcp(_) => sinks!(match build(cfg) { Final::Tcp(b) => b, _ => unreachable!() }, payload, size, |b, w| b.write(w, &payload), |b, v| b.write_to_vec(v, &payload), |b, s| b.write_to_slice(s, &payload)),
             Final::Icmp4(_) => sinks!(match build(cfg) { Final::Icmp4(b) => b, _ => unreachable!() }, payload, size, |b, w| b.write(w, &payload), |b, v| b.write_to_vec(v, &payload), |b, s| b.write_to_slice(s, &payload)),
@@ -311,7 +318,7 @@ pub fn run_case(id: &str, cfg: &Value) -> Value {
         json!({"ev": "build", "id": id, "cfg": cfg, "plen": plen, "size": size, "big": if big { 1 } else { 0 }, "topt": topt,
                "bytes": if big { out[..hdr_len.min(out.len()).min(400)].to_vec() } else { out.clone() }, "total": out.len(),
                "payload": if big { vec![] } else { payload.clone() },
-               "write": write, "vec": vec_v, "slice": slice_v, "shorts": shorts, "faults": faults})
+               "write": write, "vec": vec_v, "slice": slice_v, "shorts": shorts, "faults": faults, "exact": exact})
     }));
     r.unwrap_or_else(|_| json!({"ev": "panic", "id": id, "cfg": cfg}))
 }
